@@ -1,14 +1,19 @@
 """C15 — dtml-var options apply a fixed, documented value pipeline.
 
-Monitor: every entry of the engine's modifier table and every named special format is
-wrapped (stage trace: which stage ran, in which order, on what, giving what); the tag is
-rendered between sentinels by the real engine.
-Oracle: vlib/c15_util.predict — missing -> null -> fmt= -> C format -> the modifiers, each
-once, in ONE order -> size/etc — written from the DT_Var docstring and the statement.  The
-statement says there is one fixed order, not which: the order is read once from the stage
-trace of an all-modifiers tag and then demanded of every subset, written order and value.
-Laws checked black-box besides: written-order independence, url round trips, the sql_quote
-postcondition, truncation clauses.
+Deciding oracles work on the rendered OUTPUT alone: the tag is rendered between sentinels by the real
+engine and compared with vlib/c15_util.predict (missing -> null -> fmt= -> C format -> the modifiers,
+each once, in ONE order -> size/etc; written from the DT_Var docstring and the statement), and every
+written order of a modifier set must print what the canonical order prints (all ordered pairs on values
+where the two stages do not commute, all orders of subsets <= 4, seeded larger ones); url round trips,
+the sql_quote postcondition and the truncation clauses besides.
+The statement says there is one fixed order, not which: the reference order is the order in which the
+stage functions are seen running for an all-modifiers tag, and, when that observation is incomplete, the
+order observable from outputs (which composition each non-commuting pair prints; ties in docstring order).
+Extra monitor (never deciding alone that something is missing): a stage trace taken through the CODE
+OBJECTS of the modifier / format functions (sys.monitoring PY_START/PY_RETURN), independent of how the
+engine binds or tables them: stray stages, repeated stages, order of the observed stages, text-only
+stages receiving bytes, sql_quote stage postcondition.  No observation => counters + inconclusive, and
+only if the output oracles found nothing.
 """
 import itertools
 
@@ -27,8 +32,8 @@ RULE = ('one dtml-var tag per case, rendered by the engine and predicted by an i
         'effective) or a missing=/null= replacement happens')
 ASSUMPTIONS = [
     'the statement fixes THAT the modifiers apply in one order, not WHICH: the reference order is read '
-    'from the stage trace of one all-modifiers render per shard; a different but consistent table '
-    'order is not a violation',
+    'from the observed stage calls of one all-modifiers render per shard (fallback: from the outputs of '
+    'the non-commuting pairs, ties in docstring order); a different but consistent order is not a violation',
     'url_quote/url_unquote are RFC 3986 percent-coding of UTF-8 with "/" kept (self-checked against '
     'urllib at start-up); newline_to_br writes "<br />\\n" (pinned by test_DT_Var)',
     'a blank lies "in the second half" of the size-character prefix iff its 0-based index is > size/2 '
@@ -63,6 +68,11 @@ VALUES = ([RICH1, RICH2] + [['str', s] for s in STRS] +
           [['float', f] for f in (0.0, 3.14159, 1234567.891, -0.5, 1e20, 2.5e-07, 1234.56789)] +
           [['none'], ['list', []], ['dict', {}], ['list', [1, 2, 3]], ['dict', {'a_b': 1}],
            ['obj'], ['falsy']])
+PAIR_POOL = [RICH1[1], RICH2[1]] + STRS + [
+    'A<b>&"c" D', 'x_Y z', 'AB\ncd', '%4a_%4A', 'a%5Fb', 'a%0Ab c', 'a%27b', 'a%26b%3C', '%31%32%33%34',
+    '1234567%2E5', "a'b C", 'a_b\nc', '12_34', 'a b\r\nc', 'A+B', 'a%2Bb', '%', 'a&b_c', '1234 A',
+    '%31_234', '%7E%5f', 'a\n1234567', "1234567'", '1_234', '$1234567 x', '1234567\n', '-1234567 &',
+]
 ORDER_VALUES = [RICH1, RICH2, ['str', '%252541 %25252B'], ['str', '\xc4\xd6\xfc \xdf_\xe9'],
                 ['str', 'line1\nline2\r\nline3'], ['int', 1234567], ['float', 1234567.891],
                 ['str', 'x%2Bb+c%20d'], ['obj'], ['bytes', '%41+b_c']]
@@ -103,6 +113,117 @@ def mkcase(value, opts, syntax='dtml', form='name', cfmt='s', **extra):
     return c
 
 
+# ---------------------------------------------------------------- stage observation
+class StageWatch:
+    """Stage trace through the CODE OBJECTS of the modifier / format functions.
+
+    sys.monitoring local PY_START / PY_RETURN events on ``func.__code__``: works however the engine
+    binds, copies or re-tables the functions.  Only outermost watched calls are recorded (a format that
+    calls thousands_commas itself is one stage).  A call that never returns (exception) is recorded by
+    flush().  Entry: (function name, depth marker, first argument, result, exception name).
+    """
+    TOOLS = (5, 2, 1, 0)     # 3 and 4 are used by other instruments of this framework
+
+    def __init__(self, trace):
+        self.trace = trace
+        self.codes = {}
+        self.stack = []
+        self.tool = None
+        self.unwatchable = []
+
+    def watch(self, func):
+        f = getattr(func, '__func__', func)
+        f = getattr(f, '__wrapped__', f)
+        code = getattr(f, '__code__', None)
+        if code is None or not code.co_varnames:
+            self.unwatchable.append(getattr(func, '__name__', repr(func)))
+            return
+        self.codes[code] = code.co_name
+
+    def start(self):
+        import sys
+        mon = sys.monitoring
+        for t in self.TOOLS:
+            if mon.get_tool(t) is None:
+                mon.use_tool_id(t, 'verif-c15-stages')
+                self.tool = t
+                break
+        if self.tool is None:
+            return False
+        E = mon.events
+        mon.register_callback(self.tool, E.PY_START, self._start)
+        mon.register_callback(self.tool, E.PY_RETURN, self._return)
+        for code in self.codes:
+            mon.set_local_events(self.tool, code, E.PY_START | E.PY_RETURN)
+        return True
+
+    def stop(self):
+        import sys
+        if self.tool is None:
+            return
+        mon = sys.monitoring
+        for code in self.codes:
+            mon.set_local_events(self.tool, code, 0)
+        mon.register_callback(self.tool, mon.events.PY_START, None)
+        mon.register_callback(self.tool, mon.events.PY_RETURN, None)
+        mon.free_tool_id(self.tool)
+        self.tool = None
+
+    def _start(self, code, offset):
+        import sys
+        label = self.codes.get(code)
+        if label is None:
+            return
+        try:
+            arg = sys._getframe(1).f_locals.get(code.co_varnames[0])
+        except Exception:
+            arg = None
+        self.stack.append((label, arg))
+
+    def _return(self, code, offset, retval):
+        label = self.codes.get(code)
+        if label is None or not self.stack:
+            return
+        lab, arg = self.stack.pop()
+        if not self.stack:
+            self.trace.append((lab, 0, arg, retval, None))
+
+    def reset(self):
+        del self.trace[:]
+        del self.stack[:]
+
+    def flush(self, exc):
+        """After a render: watched calls that never returned raised (or let through) an exception."""
+        if self.stack:
+            lab, arg = self.stack[0]
+            self.trace.append((lab, 0, arg, None, type(exc).__name__ if exc is not None else 'unwound'))
+            del self.stack[:]
+
+
+def compositions(a, b, s):
+    """(b after a, a after b) of the model stages on text s; None where the statement is silent."""
+    try:
+        return U.STAGE[b](U.STAGE[a](s)), U.STAGE[a](U.STAGE[b](s))
+    except U.NotJudged:
+        return None
+
+
+_DISC = {}
+
+
+def discriminators(a, b):
+    """Pool values on which the two modifiers do not commute (both compositions judged)."""
+    key = (a, b) if a < b else (b, a)
+    if key not in _DISC:
+        out = []
+        for s in PAIR_POOL:
+            c = compositions(key[0], key[1], s)
+            if c is not None and c[0] != c[1]:
+                out.append(s)
+        _DISC[key] = out
+    return _DISC[key]
+
+
 # ---------------------------------------------------------------- monitor + oracle
 class Env:
     def __init__(self, ctx):
@@ -110,41 +231,43 @@ class Env:
         self.trace = []
         self.cache = {}
         self.order = None
-        self.real_special = {}
+        self.order_source = None
         self.nsamples = 0
+        self.watch = StageWatch(self.trace)
         self.install()
         self.selfcheck_model()
         self.learn_order()
 
-    # -- wrappers on the real table --------------------------------------
-    def _wrap(self, label, idx, real):
-        trace = self.trace
+    def close(self):
+        self.watch.stop()
 
-        def stage(v, *a, **k):
-            try:
-                r = real(v, *a, **k)
-            except Exception as e:
-                trace.append((label, idx, v, None, type(e).__name__))
-                raise
-            trace.append((label, idx, v, r, None))
-            return r
-        stage.__name__ = getattr(real, '__name__', label)
-        stage.__wrapped__ = real
-        return stage
-
+    # -- observation of the real stage functions ---------------------------
     def install(self):
         from DocumentTemplate import DT_Var
+        funcs = []
+        for n in U.MODS:
+            f = getattr(DT_Var, n, None)
+            if callable(f):
+                funcs.append(f)
         table = getattr(DT_Var, 'modifiers', None)
-        self.table_ok = (isinstance(table, list) and table and
-                         all(isinstance(t, tuple) and len(t) == 2 and callable(t[1]) for t in table))
-        if self.table_ok:
-            self.table_names = [n for n, f in table]
-            table[:] = [(n, self._wrap(n, i, f)) for i, (n, f) in enumerate(table)]
+        try:
+            for t in table or ():
+                if isinstance(t, tuple) and len(t) == 2 and callable(t[1]):
+                    funcs.append(t[1])
+        except TypeError:
+            pass
         sf = getattr(DT_Var, 'special_formats', None)
         if isinstance(sf, dict):
-            for k, f in list(sf.items()):
-                self.real_special[k] = f
-                sf[k] = self._wrap('fmt:' + k, -1, f)
+            funcs.extend(f for f in sf.values() if callable(f))
+        for f in funcs:
+            self.watch.watch(f)
+        if not self.watch.start():
+            self.ctx.count('trace:no free sys.monitoring tool id')
+
+    def special(self, fmt):
+        from DocumentTemplate import DT_Var
+        sf = getattr(DT_Var, 'special_formats', None)
+        return sf.get(fmt) if isinstance(sf, dict) else None
 
     def selfcheck_model(self):
         """The model's percent-coding must agree with the stdlib (harness sanity, not a verdict)."""
@@ -161,34 +284,80 @@ class Env:
             if not ok:
                 self.ctx.inconclusive('model self-check failed on %r' % s)
 
-    def learn_order(self):
+    def render_raw(self, src, ns):
         from DocumentTemplate.DT_HTML import HTML
-        if not self.table_ok:
-            self.ctx.inconclusive('DT_Var.modifiers is not a list of (name, function): stage trace impossible')
-            return
-        del self.trace[:]
+        self.watch.reset()
+        exc = raw = None
         try:
-            HTML('[<dtml-var x %s>]' % ' '.join(U.MODS))(None, {'x': 'a'})
+            raw = HTML(src)(None, ns)
         except Exception as e:
-            self.ctx.inconclusive('all-modifiers tag did not render: %s' % type(e).__name__)
-            return
-        raw = [t[0] for t in self.trace if not t[0].startswith('fmt:')]
-        names = dedupe(raw)
-        if not names or not set(names) <= set(U.MODS):
-            self.ctx.inconclusive('stage trace of the all-modifiers tag shows %r, not the 12 modifiers' % names)
-            return
-        missing = [m for m in U.MODS if m not in names]
-        if missing:
-            case = mkcase(['str', 'a'], [(m, None) for m in U.MODS])
-            self.ctx.case(('learn', 'all modifiers'), True)
-            self.ctx.violation('all-modifiers tag: selected modifiers never applied: %r (stage trace %r)'
-                               % (missing, raw), case, key='learn_missing')
-            names = names + missing
-        self.order = names
-        self.ctx.count('order:learned from stage trace')
+            exc = e
+        self.watch.flush(exc)
+        return raw, exc
+
+    def order_from_trace(self):
+        """The order in which the stage functions were seen running for an all-modifiers tag."""
+        raw, exc = self.render_raw('[<dtml-var x %s>]' % ' '.join(U.MODS), {'x': 'a'})
+        names = dedupe([t[0] for t in self.trace if t[0] in U.MODS])
+        self.partial_trace_order = names
+        return names if sorted(names) == sorted(U.MODS) else None
+
+    def order_from_outputs(self):
+        """The order observable from rendered text alone: for every pair of modifiers that does not
+        commute on some pool value, which of the two compositions the engine printed; topological
+        order of those facts, ties in docstring order."""
+        ctx = self.ctx
+        before = {m: set() for m in U.MODS}     # before[b] = modifiers seen applied before b
+        for a, b in itertools.combinations(U.MODS, 2):
+            vals = discriminators(a, b)
+            if not vals:
+                continue
+            v = vals[0]
+            raw, exc = self.render_raw('[<dtml-var x %s %s>]' % (a, b), {'x': v})
+            ab, ba = compositions(a, b, v)
+            got = raw[1:-1] if isinstance(raw, str) and exc is None else None
+            if got == ab:
+                before[b].add(a)
+            elif got == ba:
+                before[a].add(b)
+            else:
+                ctx.count('order:pair output explained by neither composition')
+        order = []
+        left = list(U.MODS)
+        while left:
+            ready = [m for m in left if not (before[m] & set(left))]
+            if not ready:
+                case = mkcase(['str', 'a'], [(m, None) for m in left])
+                ctx.case(('learn', 'cycle', tuple(left)), True)
+                ctx.violation('pairwise outputs admit no single modifier order among %r' % left, case,
+                              key='learn_cycle')
+                order.extend(left)
+                break
+            # ties (pairs that commute on the whole pool): as far as observed running, else docstring order
+            seen = [m for m in getattr(self, 'partial_trace_order', []) if m in ready]
+            pick = seen[0] if seen else ready[0]
+            order.append(pick)
+            left.remove(pick)
+        return order
+
+    def learn_order(self):
+        by_trace = self.order_from_trace()
+        by_output = self.order_from_outputs()
+        if by_trace is not None:
+            self.order, self.order_source = by_trace, 'stage trace'
+            self.ctx.count('order:from the stage trace')
+            # cross-check: every pair fact observable from outputs must agree with the traced order
+            agree = all(by_trace.index(a) < by_trace.index(b)
+                        for i, a in enumerate(by_output) for b in by_output[i + 1:]
+                        if discriminators(a, b)) if by_output else True
+            self.ctx.count('order:trace and output-derived order agree' if agree
+                           else 'order:trace and output-derived order DISAGREE')
+        else:
+            self.order, self.order_source = by_output, 'outputs'
+            self.ctx.count('order:from outputs (stage observation incomplete)')
         if self.ctx.shard == 0:
-            self.ctx.sample({'reference modifier order (from the trace)': names,
-                             'raw stage trace': [t[0] for t in self.trace]})
+            self.ctx.sample({'reference modifier order': self.order, 'read from': self.order_source,
+                             'order derived from pair outputs alone': by_output})
 
     # -- one case ---------------------------------------------------------
     def compile(self, case):
@@ -219,12 +388,40 @@ class Env:
             return None
         return look
 
+    def trace_monitor(self, names, demanded):
+        """Extra monitor on the observed stage calls.  Never decides alone that a stage is missing:
+        an unobserved stage is only counted (the output oracle decides whether it was applied)."""
+        ctx = self.ctx
+        if not names:
+            if demanded:
+                ctx.count('trace:no stage observed for a tag with modifiers')
+            return None
+        ctx.count('trace:monitor evaluations')
+        stray = [n for n in names if n not in demanded]
+        if stray:
+            return 'stage trace %r: stages ran that the tag does not select: %r (selected %r)' % (
+                names, stray, demanded)
+        if len(set(names)) != len(names):
+            return 'stage trace %r: a modifier was applied more than once (selected %r)' % (names, demanded)
+        if self.order_source == 'stage trace' and [n for n in demanded if n in names] != names:
+            return 'stage trace %r: not the fixed order %r' % (names, demanded)
+        if len(names) != len(demanded):
+            ctx.count('trace:selected stage not observed (not decided by the trace)')
+        return None
+
     def position_only(self, fmt, val):
-        return self.real_special[fmt](val, 'x', {})
+        return self.special(fmt)(val, 'x', {})
 
     def classify(self, case, pred, mods, fmts, out, exc):
         opts = dict((n, v) for n, v in case['opts'])
         names = [t[0] for t in mods]
+        if kind_of(case['value']) == 'bytes' and not mods:
+            # no stage observation at all: recognise the mechanism from the rendered result alone
+            sel = set(opts) & set(TEXT_ONLY)
+            if isinstance(exc, TypeError) and (sel & {'spacify', 'newline_to_br'} or 'size' in opts):
+                return MECH_BYTES
+            if exc is None and 'thousands_commas' in sel and out is not None and "b'" in out:
+                return MECH_BYTES
         if kind_of(case['value']) == 'bytes':
             if 'size' in opts and isinstance(exc, TypeError):
                 pre = U.build(case['value'])
@@ -263,16 +460,24 @@ class Env:
             return None
         undefined = case['value'][0] == 'undefined'
         ns = {} if undefined else {'x': U.build(case['value'])}
-        del self.trace[:]
+        optd = dict(map(tuple, case['opts']))
+        self.watch.reset()
         exc = out = None
         try:
             raw = tmpl(None, ns)
         except Exception as e:
             exc = e
+        self.watch.flush(exc)
         trace = list(self.trace)
-        mods = [t for t in trace if not t[0].startswith('fmt:')]
-        fmts = [t for t in trace if t[0].startswith('fmt:')]
+        # the first observed call is the fmt= stage when fmt names a special format
+        fmts, mods = [], trace
+        if 'fmt' in optd and trace and 'x' in ns and not hasattr(ns['x'], optd['fmt'] or '-'):
+            f = self.special(optd['fmt'])
+            if f is not None and getattr(f, '__name__', None) == trace[0][0]:
+                fmts, mods = trace[:1], trace[1:]
         ctx.count('trace:stages recorded', len(trace))
+        for t in mods:
+            ctx.table('stage observed', t[0])
         if exc is None:
             if not (isinstance(raw, str) and len(raw) >= 2 and raw[0] == '[' and raw[-1] == ']'):
                 ctx.case(desc, True)
@@ -320,9 +525,9 @@ class Env:
             ctx.count('replacement:' + pred.replaced)
         what = None
         detail = {'source': src, 'value': repr(ns.get('x', '(undefined)')), 'expected': pred.text,
-                  'observed': out, 'stage trace': [(t[0], t[1], repr(t[2])[:80], repr(t[3])[:80], t[4])
+                  'observed': out, 'stage trace': [(t[0], repr(t[2])[:80], repr(t[3])[:80], t[4])
                                                    for t in trace][:20],
-                  'reference order': self.order}
+                  'reference order': self.order, 'reference order read from': self.order_source}
         if exc is not None:
             what = 'render raised %s: %s (demanded %r)' % (type(exc).__name__, str(exc)[:100], pred.text[:80])
         elif out != pred.text:
@@ -337,9 +542,8 @@ class Env:
                     clause, pred.pre_size[:60], optd['size'], out[:80], pred.text[:80])
             else:
                 what = 'output %r differs from the pipeline model %r' % (out[:120], pred.text[:120])
-        elif not U.simple_form(case) and names != pred.stages:
-            what = 'stage trace %r: demanded each selected modifier once, in the fixed order: %r' % (
-                names, pred.stages)
+        elif not U.simple_form(case):
+            what = self.trace_monitor(names, pred.stages)
         if what is None and exc is None and optnames and set(optnames) <= {'sql_quote'} and \
                 case.get('cfmt', 's') == 's':
             ctx.count('sql_quote:final-output law evaluations')
@@ -371,7 +575,7 @@ class Env:
             else:
                 q = model_q
             _, tu = self.compile(mkcase(['str', q], [(u_opt, None)]))
-            del self.trace[:]
+            self.watch.reset()
             back = tu(None, {'x': q})[1:-1]
         except Exception as e:
             ctx.violation('url round trip raised %s: %s' % (type(e).__name__, str(e)[:100]), case,
@@ -411,6 +615,31 @@ def part_subsets(env):
             case = mkcase(v, [(m, None) for m in sub], syntax=syntax if j % 2 == 0 else 'dtml',
                           form=form if j % 3 == 0 else 'name')
             env.evaluate(case, 'subset')
+
+
+def part_pairs(env):
+    """Every ORDERED pair of the 12 modifiers on values where the two stages do not commute:
+    both written orders must print the same text (and the text the pipeline model demands)."""
+    ctx = env.ctx
+    nv = 2 if ctx.tier == 'quick' else 8
+    for i, (a, b) in enumerate(itertools.combinations(U.MODS, 2)):
+        if i % ctx.nshards != ctx.shard:
+            continue
+        vals = discriminators(a, b)
+        if not vals:
+            ctx.table('pairs: commute on the whole pool', '%s+%s' % (a, b))
+            continue
+        ctx.count('pairs:unordered pairs rendered in both orders on a non-commuting value')
+        for vi, s in enumerate(vals[:nv]):
+            syntax = SYNTAXES[(i + vi) % 4]
+            c1 = mkcase(['str', s], [(a, None), (b, None)], syntax=syntax)
+            c2 = mkcase(['str', s], [(b, None), (a, None)], syntax=syntax)
+            o1 = env.evaluate(c1, 'pair')
+            o2 = env.evaluate(c2, 'pair')
+            ctx.count('pairs:law evaluations')
+            if o1 != o2 and o1 is not None and o2 is not None:
+                ctx.violation('two written orders of the same option set differ: <%s %s> gives %r, <%s %s> gives %r'
+                              % (a, b, o1, b, a, o2), c2, key='pairlaw_%s_%s' % (a, b))
 
 
 def part_orders(env):
@@ -716,7 +945,7 @@ def part_random(env):
         ctx.count('random:cases')
 
 
-PARTS = [part_subsets, part_orders, part_fmt, part_size, part_nullmissing, part_laws, part_url,
+PARTS = [part_pairs, part_subsets, part_orders, part_fmt, part_size, part_nullmissing, part_laws, part_url,
          part_random]
 
 
@@ -739,12 +968,14 @@ def run(ctx, spec):
     reach = Reach()
     watch_anchors(reach)
     reach.start()
+    env = None
     try:
         env = Env(ctx)
-        if env.order is not None:
-            for part in PARTS:
-                part(env)
+        for part in PARTS:
+            part(env)
     finally:
+        if env is not None:
+            env.close()
         reach.stop()
         reach.report(ctx)
 
@@ -754,13 +985,22 @@ def finish(agg):
     t = agg.get('tables', {})
     inc = []
     nsh = NSHARDS[agg['tier']]
-    if c.get('order:learned from stage trace', 0) != nsh:
-        inc.append('reference modifier order not read from the stage trace in every shard')
-    if not c.get('trace:stages recorded'):
-        inc.append('modifier-table wrappers never evaluated')
+    # stage observation: its absence never decides, it only makes a violation-free run inconclusive
+    if c.get('order:from the stage trace', 0) != nsh:
+        inc.append('stage observation did not see all 12 modifiers: reference order derived from outputs only')
+    if not c.get('trace:stages recorded') or not c.get('trace:monitor evaluations'):
+        inc.append('stage observation (code-object monitor) never evaluated')
+    for m in U.MODS:
+        if not t.get('stage observed', {}).get(m):
+            inc.append('stage function never observed running: ' + m)
+    if c.get('order:trace and output-derived order DISAGREE'):
+        inc.append('order read from the stage trace disagrees with the order observable from outputs')
+    npairs = sum(1 for a, b in itertools.combinations(U.MODS, 2) if discriminators(a, b))
+    if c.get('pairs:unordered pairs rendered in both orders on a non-commuting value', 0) != npairs:
+        inc.append('not every non-commuting modifier pair was rendered in both written orders')
     if c.get('subsets:canonical-order subsets covered', 0) != 1 << len(U.MODS):
         inc.append('not all 4096 modifier subsets were rendered')
-    for k in ('orders:law evaluations', 'orders:valued-option permutations', 'orders:large-subset permutations',
+    for k in ('pairs:law evaluations', 'orders:law evaluations', 'orders:valued-option permutations', 'orders:large-subset permutations',
               'law:roundtrip evaluations', 'sql_quote:postcondition_evaluations',
               'sql_quote:final-output law evaluations', 'replacement:missing', 'replacement:null',
               'judged:size', 'judged:fmt', 'judged:cformat', 'judged:fmt+cformat', 'judged:url',
@@ -799,8 +1039,13 @@ def finish(agg):
 # ---------------------------------------------------------------- replay
 def replay(ctx, rep):
     env = Env(ctx)
-    if env.order is None:
-        return
+    try:
+        _replay(ctx, env, rep)
+    finally:
+        env.close()
+
+
+def _replay(ctx, env, rep):
     c = rep['case']
     if c.get('law') == 'roundtrip':
         env.law_roundtrip(c['s'], c['plus'], c['via'])
